@@ -73,7 +73,7 @@ def gen_run(seed, tier, i):
     nops = s_ops.randint(1, plan["max_ops"])
     ops = [{"op": s_ops.choice(enabled), "target": s_ops.randrange(64)} for _ in range(nops)]
     run = {"property": NAME, "family": st["family"], "triples": st["triples"], "solver": solver,
-           "tie": s_cfg.randrange(1 << 10), "ops": ops}
+           "tie": s_cfg.randrange(1 << 10), "ops": ops, "loglevel": s_cfg.choice(["off", "off", "INFO", "DEBUG"])}
     s_fault = rng.stream(NAME, tier, seed, i, "faults")
     if solver == "sim" and s_fault.random() < 0.15:
         # the fault-injecting configuration (kept apart from the fault-free one, whose oracle is strict): solves
@@ -291,7 +291,7 @@ def execute_run(run, tmpdir):
     n0, pairs0 = oracles.pairs_of_triples(run["triples"])
     has_iso = any(L == 1 for _, _, L in oracles.stems(pairs0))
     has_knot = oracles.is_knotted(pairs0)
-    with SimEnv(tmpdir, run_id) as env:
+    with SimEnv(tmpdir, run_id, run.get("loglevel")) as env:
         backend = {"sim": "sim-api", "none": "none", "real-cbc": "real-cbc"}[run["solver"]]
         solver = env.configure(backend, False, True, [{"kind": "ok", "tie": run["tie"]}])
         env.set_default(solver)
@@ -508,6 +508,8 @@ def shrink_candidates(run, v):
         yield dict(run, tie=0)
     if run.get("sibling"):
         yield {k: v for k, v in run.items() if k != "sibling"}
+    if run.get("loglevel", "off") != "off":
+        yield dict(run, loglevel="off")
     if run.get("faulty"):
         for k, o in enumerate(ops):
             if o.get("fault"):
